@@ -835,9 +835,13 @@ def set_race(rng, T):
     for (cls, attr) in (a, b):
         o = []
         for _ in range(rng.randint(2, 7)):
-            if rng.random() < 0.2:
-                # the receiver reports a value (possibly off the library's grid, as real receivers do: 93.55 MHz)
-                o.append(["report", fname, rng.choice(offgrid + ["-30.5", "16.5", "Auto"])])
+            if rng.random() < 0.25:
+                # the receiver reports a value (possibly off the library's grid, as real receivers do: 93.55 MHz) — for this function or for
+                # another stepped function of the same subunit (a reported MAXVOL is no reason to write anything but the requested VOL)
+                if rng.random() < 0.5:
+                    o.append(["report", fname, rng.choice(offgrid + ["-30.5", "16.5", "Auto"])])
+                else:
+                    o.append(["report", rng.choice(sorted(SPEC)), rng.choice(["-20.0", "5.0", "-60.5", "0.0", "16.5", "87.50", "530"])])
             else:
                 o.append(["set", attr, fname, rng.choice(pool) if rng.random() < 0.7 else val()])
         ops.append(o)
